@@ -26,7 +26,7 @@ pub fn run(ctx: &mut Ctx) -> Result<(), String> {
         "C06" => pool_props::run(ctx, "C06", 480, 40_000),
         "C07" => pool_props::run(ctx, "C07", 480, 40_000),
         "C08" => pool_props::run(ctx, "C08", 480, 40_000),
-        "C18" => pool_props::run(ctx, "C18", 320, 20_000),
+        "C18" => pool_props::run(ctx, "C18", 320, 20_000).and_then(|_| c05::run_votor(ctx, 240, 12_000)),
         "C09" => c09::run(ctx),
         "C10" => cluster_props::run_c10(ctx),
         "C11" => c11::run(ctx),
